@@ -376,7 +376,13 @@ func c13Conntrack(e *env) {
 	bad := 0
 	var first string
 	for i := 0; i < n; i++ {
-		a, b := net.Pipe()
+		a0, b := net.Pipe()
+		var a net.Conn = a0
+		if i%8 == 3 {
+			// a socket whose Close takes a while: the closers overlap inside it (a window in which a
+			// check-then-act "already closed" flag is still unset)
+			a = slowCloseConn{a0}
+		}
 		var cb atomic.Int32
 		wc, obs := conntrack.Builder{TrackTraffic: i%2 == 0, OnClose: func() { cb.Add(1) }}.BuildWithObserver(a)
 		// traffic
@@ -409,6 +415,9 @@ func c13Conntrack(e *env) {
 		}
 		// concurrent closers
 		k := 1 + i%4
+		if i%8 == 3 {
+			k = 2 + i%3
+		}
 		start := make(chan struct{})
 		for g := 0; g < k; g++ {
 			wg.Add(1)
@@ -433,6 +442,13 @@ func c13Conntrack(e *env) {
 		res["why"] = first
 	}
 	e.emit(res)
+}
+
+type slowCloseConn struct{ net.Conn }
+
+func (c slowCloseConn) Close() error {
+	time.Sleep(3 * time.Millisecond)
+	return c.Conn.Close()
 }
 
 var _ = bufio.NewReader
